@@ -312,6 +312,7 @@ def run_l3(ctx):
     TIMEOUT = 8.0
     n = ctx.pick(60, 1500) // max(1, min(ctx.nshards, 4))
     plan = {}
+    clients = {}
 
     def behaviour(conn):
         spec = plan["spec"]
@@ -368,7 +369,13 @@ def run_l3(ctx):
             tmo = 1.0 if stalling else TIMEOUT
 
             async def go():
-                c = GeminiClient(timeout=tmo, trust_on_first_use=False)
+                # clients are long-lived objects: the same one serves many calls (a fresh one every 25th)
+                key = (tmo, i // 25)
+                c = clients.get(key)
+                if c is None:
+                    clients.clear()
+                    c = clients[key] = GeminiClient(timeout=tmo, trust_on_first_use=False)
+                    ctx.count("monitor", "l3_client_objects")
                 if entry == "get":
                     return await c.get(url, follow_redirects=False)
                 return await c.upload(url, b"abc", mime_type="text/plain")
